@@ -87,7 +87,7 @@ func demo(outPath string) {
 			case base == nil || (k < len(base) && len(evs) == len(base) && reflect.DeepEqual(evs[k].Rows, base[k].Rows) && evs[k].VR == nil == (base[k].VR == nil) &&
 				reflect.DeepEqual([]any{evs[k].VR, evs[k].VS, evs[k].Trunc, evs[k].UAddr, evs[k].USize, evs[k].Perr}, []any{base[k].VR, base[k].VS, base[k].Trunc, base[k].UAddr, base[k].USize, base[k].Perr})):
 				evs[k].Demo = "accept"
-				if evs[k].RD > 0 && len(evs[k].Rows) > 1 { // rows of a nested buffer past its first line: the known D4 shape
+				if evs[k].RD > 0 && len(evs[k].Rows) > 1 { // rows of a nested buffer past its first line: the known D4 shape (accepted once repaired)
 					evs[k].Demo = "d4"
 				}
 			default:
@@ -146,7 +146,7 @@ func demo(outPath string) {
 		{"until text names another bit", func(ls []string) []string { return sub(ls, len(ls)-1, "until 0x25.3", "until 0x25.4") }},
 		{"until text gives another size", func(ls []string) []string { return sub(ls, len(ls)-1, "(36)", "(35)") }},
 	})
-	// j2: the nested buffer (uncompressed, three rows 0x00 0x01 0x02 -- D4) is printed twice; damage the first copy
+	// j2: the nested buffer (uncompressed, three rows, printed 0x00 0x01 0x02 as long as D4 is there) is shown twice; damage the first copy
 	nested := func(ls []string) int {
 		for i, l := range ls {
 			if strings.Contains(l, "uncompressed") {
@@ -162,7 +162,15 @@ func demo(outPath string) {
 			w := strings.Index(ls[i], "|")
 			return sub(ls, i, "|"+cell(ls[i], w, 0), "|"+flip(cell(ls[i], w, 0)))
 		}},
-		{"nested address wrong in another way than D4", func(ls []string) []string { return sub(ls, nested(ls)+1, "0x01|", "0x03|") }},
+		{"nested address wrong in another way than D4", func(ls []string) []string {
+			i := nested(ls) + 1
+			l := []byte(ls[i])
+			p := strings.Index(ls[i], "|") - 1 // last digit of the address text, whatever the tree under test prints there
+			l[p] = map[bool]byte{true: '5', false: '3'}[l[p] == '3']
+			o := append([]string{}, ls...)
+			o[i] = string(l)
+			return o
+		}},
 		{"hex digit changed in the top buffer", func(ls []string) []string { return sub(ls, 3, "|1f 8b", "|1f 8c") }},
 	})
 	out.Close()
